@@ -15,8 +15,9 @@ peg::parser! {
         rule whitespace() = quiet!{ [' ' | '\t' | '\n' | '\r']+ }
         rule _() = quiet!{ [' ' | '\t' | '\n' | '\r']* }
 
+        // Whole word: `not_x`, `by2` are identifiers, not keywords
         rule ci(s: &'static str)
-            = kw:$(['a'..='z' | 'A'..='Z']+) {? if eq_ci(kw, s) { Ok(()) } else { Err("expected keyword") } }
+            = kw:$(['a'..='z' | 'A'..='Z']+) !['0'..='9' | '_'] {? if eq_ci(kw, s) { Ok(()) } else { Err("expected keyword") } }
 
         // ==========
         // ENTRY POINT
